@@ -276,3 +276,54 @@ Definition same_pn (a b : res (@gout Q (@pn_state Q))) : bool :=
   end.
 Definition frag_pn (r : res (@gout Q (@pn_state Q)) * res (@gout Q (@pn_state Q)) * res (@gout Q (@pn_state Q))) (o : obs_run) : bool :=
   let '(a, b, c) := r in negb (same_pn a b && same_pn a c).
+
+(* ---------------- GroupBCD END TO END: the skeleton over the REGENERATED block kernels (Gen/KernBCD.v, dist_fix_point_bcd of
+   Gen/KernCD.v), the regenerated QuadraticGroup datafit and group penalty, and the modelled AndersonAcceleration (K = 5);
+   the per-group Lipschitz constants (a spectral norm, not translated) are taken from the real datafit ---------------- *)
+Require Import SK.Gen.KernBCD SK.Gen.DfGroup.
+Definition bcd_case_N (N : Num Q) (X : list (list Q)) (y lipv : list Q) (grp_ptr grp_indices : list Z)
+    (max_iter max_epochs : nat) (p0 : Z) (tol : Q) (fi fixp : bool)
+    (score : list Q -> list Q -> list Z -> res (list (Ext Q))) (prox : list Q -> Q -> Z -> res (list Q))
+    (value : list Q -> res (Ext Q)) (gsupp : list Q -> res (list bool)) (w_init Xw_init : option (list Q))
+    : res (@gout Q (@bstate Q (@aa_state Q))) :=
+  let gg := @QuadraticGroup_gradient_g Q N grp_ptr grp_indices in
+  @bsolve Q N (@aa_state Q)
+    {| max_iter := max_iter; max_epochs := max_epochs; p0 := p0; tol := tol; fixpoint := fixp; fit_intercept := fi;
+       n_features := length X; n_samples := length y |}
+    {| k_lipschitz := Ok lipv; k_is_penalized := []; k_full_grad := fun _ _ => Err Dom;
+       k_subdiff := score;
+       k_fixpoint := fun w g lip ws => @dist_fix_point_bcd Q N grp_ptr grp_indices prox w g lip ws;
+       k_intercept_step := fun Xw => @QuadraticGroup_intercept_update_step Q N y Xw;
+       k_gsupp := gsupp; k_topk := mk_topk;
+       k_epoch := fun w Xw lip ws => @_bcd_epoch Q N grp_ptr grp_indices gg prox X y w Xw lip ws;
+       k_grad_ws := fun w Xw ws => @bcd_construct_grad Q N grp_ptr gg X y w Xw ws;
+       k_df_value := fun w Xw => @QuadraticGroup_value Q N y w Xw; k_pen_value := value;
+       k_acc_init := aa_init; k_acc_step := @aa_step Q N 5 (mock_solve_z_N N) |}
+    (Nat.pred (length grp_ptr)) w_init Xw_init.
+Definition bcd_case := bcd_case_N QNumT.
+Definition chk_bcd_e2e (r : res (@gout Q (@bstate Q (@aa_state Q)))) (o : obs_run) : bool :=
+  match r with
+  | Err _ => or_err o
+  | Ok g => negb (or_err o) && all2 qclose (b_w (g_s g)) (or_w o) && all2 ext_eqq (g_obj g) (or_obj o) && ext_eqq (g_stop g) (or_stop o)
+  end.
+Definition same_bcd (a b : res (@gout Q (@bstate Q (@aa_state Q)))) : bool :=
+  match a, b with
+  | Err _, Err _ => true
+  | Ok g, Ok h => all2 Qeqb (b_w (g_s g)) (b_w (g_s h)) && all2 ext_same (g_obj g) (g_obj h) && ext_same (g_stop g) (g_stop h)
+  | _, _ => false
+  end.
+Definition frag_bcd (r : res (@gout Q (@bstate Q (@aa_state Q))) * res (@gout Q (@bstate Q (@aa_state Q))) * res (@gout Q (@bstate Q (@aa_state Q))))
+    (o : obs_run) : bool :=
+  let '(a, b, c) := r in negb (same_bcd a b && same_bcd a c).
+
+(* CSC input: QuadraticGroup.get_lipschitz_sparse is a power method started from a RANDOM vector (tolerance 1e-6), so the
+   constants the solver used are only known to ~1e-7; such runs are compared to 1e-5 *)
+Definition qcloseL (a b : Q) : bool :=
+  let d := Qabs (a - b) in let m := if Qltb (Qabs b) 1 then 1 else Qabs b in Qlebb d ((1 # 100000) * m).
+Definition ext_eqqL (a : Ext Q) (b : xq) : bool :=
+  match a, b with Fin x, XQ y => qcloseL x y | PInf, XInf => true | _, _ => false end.
+Definition chk_bcd_e2e_sp (r : res (@gout Q (@bstate Q (@aa_state Q)))) (o : obs_run) : bool :=
+  match r with
+  | Err _ => or_err o
+  | Ok g => negb (or_err o) && all2 qcloseL (b_w (g_s g)) (or_w o) && all2 ext_eqqL (g_obj g) (or_obj o) && ext_eqqL (g_stop g) (or_stop o)
+  end.
